@@ -33,7 +33,7 @@ TRUSTED_BASE = ["vf.refs.kvline", "vf.ctl.Session"]
 ANCHORS = ["txtorcon.torcontrolprotocol:TorControlProtocol.set_conf",
            "txtorcon.torcontrolprotocol:TorControlProtocol.queue_command",
            "txtorcon.torcontrolprotocol:TorControlProtocol._maybe_issue_command"]
-FLOORS = {"quick": {"evaluations": 3000, "lines_decoded": 2500, "queued_calls": 800, "control_char_cases": 500, "marker_literal_cases": 100, "odd_but_legal_key_cases": 60, "long_commands": 3,
+FLOORS = {"quick": {"evaluations": 3000, "lines_decoded": 2500, "queued_calls": 800, "control_char_cases": 500, "marker_literal_cases": 100, "equal_but_differently_printed_value_pairs": 60, "odd_but_legal_key_cases": 60, "long_commands": 3,
                     "reach:txtorcon.torcontrolprotocol:TorControlProtocol.set_conf": 3000},
           "thorough": {"evaluations": 30000, "lines_decoded": 25000}}
 
@@ -262,6 +262,18 @@ def run_shard(spec, rec):
                     n += 1
         rec.count("marker_literal_cases", n)
         rec.enumerated("19 marker-like literals x interned/assembled x 3 pair positions")
+        # values that compare (and hash) equal but print differently, sent one after the other for the same key
+        # in this one process: each call must carry the text of ITS value (anything memoised by ==/hash mixes them)
+        n = 0
+        for group in ([1, True, 1.0, "1"], [0, False, 0.0, "0"], [2, 2.0, "2"], [-1, -1.0]):
+            for a, b in itertools.permutations(group, 2):
+                for key in ("ORPort", "Log"):
+                    for first, second in (([(key, a)], [(key, b)]), ([("SocksPort", "9050"), (key, a)], [(key, b), ("ContactInfo", "x")])):
+                        go({"pairs": first, "history": "first of an equal-but-differently-printed pair"})
+                        go({"pairs": second, "history": ["same key sent just before with", repr(a)]})
+                        n += 1
+        rec.count("equal_but_differently_printed_value_pairs", n)
+        rec.enumerated("ordered pairs of ==-equal values of different type (int/bool/float/str) x 2 keys x 2 pair positions, back to back")
     elif mode == "control":
         # every C0 control character and DEL: alone, inside a word, next to a space / quote / backslash
         n = 0
